@@ -261,6 +261,13 @@ def Code.stateImpls (c : Code) (state : Name) : List (Option Ctor × List Method
 def Code.findMethod (c : Code) (state name : Name) : Option Method :=
   ((c.stateImpls state).flatMap (·.2)).find? (·.name = name)
 
+def Item.ctorState? : Item → Option Name
+  | .stateImpl _ _ s (some _) _ => some s
+  | _ => none
+
+/-- the state whose impl block carries the constructor: the type `M::new(ctx)` is inferred at -/
+def Code.ctorState (c : Code) : Option Name := c.findSome? Item.ctorState?
+
 def Code.findCtor (c : Code) (state : Name) : Option Ctor :=
   ((c.stateImpls state).filterMap (·.1)).head?
 
